@@ -2,7 +2,8 @@
 
 A *scenario* is a table of generated process classes and callback bodies plus the classes instantiated at top level:
 
-    scn = {'classes': [[step, ...], ...], 'cbs': [code, ...], 'top': [class index, ...], 'ext': [[pid, cb], ...]}
+    scn = {'classes': [[step, ...], ...], 'cbs': [code, ...], 'top': [class index, ...], 'ext': [[pid, cb], ...], 'kills': [pid, ...]}
+    kills = [pid, ...]: processes that the harness may kill() (instead of resuming them) while they are parked in WAITING
     ext  = callbacks that code outside any task (here: the harness, between two callbacks, at a moment of its choice)
            schedules on a top-level process with `proc.call_soon(cb)` — what an RPC handler does
     step = {'code': [act, ...], 'end': 'next' | 'wait' | 'finish' | 'raise'}      (the last step ends with finish/raise)
@@ -11,7 +12,7 @@ A *scenario* is a table of generated process classes and callback bodies plus th
 
 A *schedule* is a list of integers: at every decision of the event loop (outermost or nested inside an `execute()`), the
 harness lists the enabled operations (`tick <tid>` for every ready task in task-id order, then `resume <tid>` for every process
-parked in WAITING, then `ext <pid> <cb>` for every external call_soon not issued yet) and takes entry `choice % len(enabled)`.
+parked in WAITING, then `kill <tid>` for the parked processes listed in `kills`, then `ext <pid> <cb>` for every external call_soon not issued yet) and takes entry `choice % len(enabled)`.
 
 Every code point records (owner pid, kind, Process.current(), PROCESS_STACK); the harness records Process.current() itself at
 every decision (kind `loop`).
@@ -25,7 +26,7 @@ from plumpy import processes as _pp
 
 LIFECYCLE_HOOKS = ['on_create', 'on_entering', 'on_entered', 'on_exiting', 'on_run', 'on_running', 'on_exit_running',
                    'on_wait', 'on_waiting', 'on_exit_waiting', 'on_finish', 'on_finished', 'on_except', 'on_excepted',
-                   'on_terminated', 'on_close']
+                   'on_kill', 'on_killed', 'on_terminated', 'on_close']
 OUTPUT_HOOKS = ['on_output_emitting', 'on_output_emitted']
 # kinds of code points that the property puts inside the scope of their process (everything but lifecycle hooks)
 INSCOPE_KINDS = ['seg', 'aw', 'o', 'cbseg', 'cbaw', 'lret', 'xret', 'csret', 'uret'] + ['h.' + h for h in OUTPUT_HOOKS]
@@ -150,6 +151,8 @@ class Run:
         self.nest = []           # pids of the processes whose code is inside `other.execute()`, innermost last
         self.max_nest = 0
         self.fatal = None
+        self.kills = set(scn.get('kills', []))
+        self.killed = []
         self.pending_ext = [tuple(e) for e in scn.get('ext', [])]
         self.classes = [make_class(self, k) for k in range(len(scn['classes']))]
         self.loop = CtlLoop(self.decide)
@@ -208,7 +211,9 @@ class Run:
         while True:
             self.close_chunk()
             ready, parked = self.chunks[-1]['ready'], self.chunks[-1]['parked']
-            options = [('tick', t) for t in ready] + [('resume', t) for t in parked] + [('ext', e) for e in self.pending_ext]
+            pid_of = {tt: p for p, tt in self.stepper_of.items()}
+            options = ([('tick', t) for t in ready] + [('resume', t) for t in parked]
+                       + [('kill', t) for t in parked if pid_of[t] in self.kills] + [('ext', e) for e in self.pending_ext])
             if not options:
                 raise Deadlock()
             if self.pos < len(self.schedule):
@@ -230,9 +235,13 @@ class Run:
                 continue
             self.chunks.append(dict(op=f'{kind} {t}'))
             if kind == 'resume':
-                pid = [p for p, tt in self.stepper_of.items() if tt == t][0]
-                self.resumed.add(pid)
-                self.procs[pid].resume()
+                self.resumed.add(pid_of[t])
+                self.procs[pid_of[t]].resume()
+                continue
+            if kind == 'kill':
+                self.resumed.add(pid_of[t])
+                self.killed.append(pid_of[t])
+                self.procs[pid_of[t]].kill()
                 continue
             for h in loop.live_handles():
                 if CtlLoop.tid_of(h) == t:
@@ -384,7 +393,7 @@ def do_act(run, proc, act, expect):
         run.max_nest = max(run.max_nest, len(run.nest))
         try:
             other.execute()
-        except Boom:
+        except (Boom, plumpy.KilledError):
             pass
         finally:
             run.nest.pop()
@@ -426,4 +435,4 @@ def run_impl(scn, schedule, seed=None, stop_at_end=False):
     except BaseException as e:  # noqa
         err = f'{type(e).__name__}:{e}'[:200]
     return dict(chunks=r.chunks, finals=r.finals, taken=r.taken, creator=r.creator, error=err, max_nest=r.max_nest,
-                n_procs=len(r.procs), n_tasks=r.loop._n_tasks, class_of=r.class_of)
+                n_procs=len(r.procs), n_tasks=r.loop._n_tasks, class_of=r.class_of, killed=r.killed)
